@@ -419,7 +419,7 @@ func mutateDER(r *rand.Rand, b []byte, n int) ([]byte, string) {
 			desc = append(desc, fmt.Sprintf("dup@%d", t.off))
 		case 6: // indefinite-length nesting bomb in place of the content
 			// 20 000 levels (80 KB) stay far below the CPU bound even with pdfcpu's quadratic re-encoding;
-			// the scale at which that shows decisively is a dedicated probe of the thorough tier (probes.go).
+			// the scale at which that shows decisively is a dedicated probe (probes.go).
 			depth := []int{10, 100, 201, 1000, 5000, 20000}[r.IntN(6)]
 			var v []byte
 			if r.IntN(2) == 0 {
